@@ -8,58 +8,69 @@ Import ListNotations.
 Open Scope string_scope.
 Set Implicit Arguments.
 
-Definition scq (r eps mr : Qc) (mu : Qc) : Qc -> Qc -> bool :=
-  match qc_nat r with
-  | Datatypes.O => fun a b => qc_abs_diff_eq a b eps
-  | Datatypes.S Datatypes.O => fun a b => qc_relative_eq a b eps mr
-  | _ => fun a b => qc_ulps_eq a b eps (Z.to_N (Qnum (this mu)))
-  end.
-Definition vb (b : bool) : val := VBool b.
-Definition cmp_case (X : Type) (rx : rd Qc X) (c : (Qc -> Qc -> bool) -> X -> X -> bool) (l : list Qc) : val :=
-  match l with
-  | r :: eps :: mr :: mu :: rest => run2 rx rx (fun a b => vb (c (scq r eps mr mu) a b)) rest
-  | _ => VBad end.
-Local Notation rq := (@rd_quat Qc).
-Definition AQ := ApproxQ.
+Section G.
+  Variable F : Type.
+  Variable O : Ops F.
+  Variable A : Approx F.
+  Variable toNat : F -> nat.
+  Variable toN : F -> N.
 
-Definition tab_c18 : list (string * (list Qc -> val)) := [
-  ("v1_cmp", cmp_case (@rd_v1 Qc) (@v1_cmp Qc)); ("v2_cmp", cmp_case (@rd_v2 Qc) (@v2_cmp Qc));
-  ("v3_cmp", cmp_case (@rd_v3 Qc) (@v3_cmp Qc)); ("v4_cmp", cmp_case (@rd_v4 Qc) (@v4_cmp Qc));
-  ("p1_cmp", cmp_case (@rd_p1 Qc) (@p1_cmp Qc)); ("p2_cmp", cmp_case (@rd_p2 Qc) (@p2_cmp Qc));
-  ("p3_cmp", cmp_case (@rd_p3 Qc) (@p3_cmp Qc));
-  ("m2_cmp", cmp_case (@rd_m2 Qc) (@m2_cmp Qc)); ("m3_cmp", cmp_case (@rd_m3 Qc) (@m3_cmp Qc));
-  ("m4_cmp", cmp_case (@rd_m4 Qc) (@m4_cmp Qc));
-  ("quat_cmp", cmp_case rq (@quat_cmp Qc));
-  ("rad_cmp", cmp_case (@rd_s Qc) (@ang_cmp Qc)); ("deg_cmp", cmp_case (@rd_s Qc) (@ang_cmp Qc));
-  ("euler_cmp", cmp_case (@rd_euler Qc) (@euler_cmp Qc));
-  ("basis2_cmp", cmp_case (@rd_m2 Qc) (@basis2_cmp Qc)); ("basis3_cmp", cmp_case (@rd_m3 Qc) (@basis3_cmp Qc));
-  ("dq_cmp", cmp_case (rd_dec rq (@rd_v3 Qc)) (fun sc => dec_cmp sc (quat_cmp sc) (v3_cmp sc)));
-  ("db3_cmp", cmp_case (rd_dec (@rd_m3 Qc) (@rd_v3 Qc)) (fun sc => dec_cmp sc (m3_cmp sc) (v3_cmp sc)));
-  ("db2_cmp", cmp_case (rd_dec (@rd_m2 Qc) (@rd_v2 Qc)) (fun sc => dec_cmp sc (m2_cmp sc) (v2_cmp sc)));
+
+Definition scq (r eps mr : F) (mu : F) : F -> F -> bool :=
+  match toNat r with
+  | Datatypes.O => fun a b => abs_diff_eq A a b eps
+  | Datatypes.S Datatypes.O => fun a b => relative_eq A a b eps mr
+  | _ => fun a b => ulps_eq A a b eps (toN mu)
+  end.
+Definition cmp_case (X : Type) (rx : rd F X) (c : (F -> F -> bool) -> X -> X -> bool) (l : list F) : gval F :=
+  match l with
+  | r :: eps :: mr :: mu :: rest => grun2 rx rx (fun a b => gb (c (scq r eps mr mu) a b)) rest
+  | _ => GBad end.
+  Local Notation rq := (@rd_quat F).
+  Local Notation AQ := A.
+
+Definition gtab_c18 : list (string * (list F -> gval F)) := [
+  ("v1_cmp", cmp_case (@rd_v1 F) (@v1_cmp F)); ("v2_cmp", cmp_case (@rd_v2 F) (@v2_cmp F));
+  ("v3_cmp", cmp_case (@rd_v3 F) (@v3_cmp F)); ("v4_cmp", cmp_case (@rd_v4 F) (@v4_cmp F));
+  ("p1_cmp", cmp_case (@rd_p1 F) (@p1_cmp F)); ("p2_cmp", cmp_case (@rd_p2 F) (@p2_cmp F));
+  ("p3_cmp", cmp_case (@rd_p3 F) (@p3_cmp F));
+  ("m2_cmp", cmp_case (@rd_m2 F) (@m2_cmp F)); ("m3_cmp", cmp_case (@rd_m3 F) (@m3_cmp F));
+  ("m4_cmp", cmp_case (@rd_m4 F) (@m4_cmp F));
+  ("quat_cmp", cmp_case rq (@quat_cmp F));
+  ("rad_cmp", cmp_case (@rd_s F) (@ang_cmp F)); ("deg_cmp", cmp_case (@rd_s F) (@ang_cmp F));
+  ("euler_cmp", cmp_case (@rd_euler F) (@euler_cmp F));
+  ("basis2_cmp", cmp_case (@rd_m2 F) (@basis2_cmp F)); ("basis3_cmp", cmp_case (@rd_m3 F) (@basis3_cmp F));
+  ("dq_cmp", cmp_case (rd_dec rq (@rd_v3 F)) (fun sc => dec_cmp sc (quat_cmp sc) (v3_cmp sc)));
+  ("db3_cmp", cmp_case (rd_dec (@rd_m3 F) (@rd_v3 F)) (fun sc => dec_cmp sc (m3_cmp sc) (v3_cmp sc)));
+  ("db2_cmp", cmp_case (rd_dec (@rd_m2 F) (@rd_v2 F)) (fun sc => dec_cmp sc (m2_cmp sc) (v2_cmp sc)));
   (* predicates *)
-  ("m2_is_identity", run1 (@rd_m2 Qc) (fun m => vb (m2_is_identity O AQ m)));
-  ("m3_is_identity", run1 (@rd_m3 Qc) (fun m => vb (m3_is_identity O AQ m)));
-  ("m4_is_identity", run1 (@rd_m4 Qc) (fun m => vb (m4_is_identity O AQ m)));
-  ("m2_is_zero", run1 (@rd_m2 Qc) (fun m => vb (m2_is_zero O AQ m)));
-  ("m3_is_zero", run1 (@rd_m3 Qc) (fun m => vb (m3_is_zero O AQ m)));
-  ("m4_is_zero", run1 (@rd_m4 Qc) (fun m => vb (m4_is_zero O AQ m)));
-  ("m2_is_diagonal", run1 (@rd_m2 Qc) (fun m => vb (m2_is_diagonal O AQ m)));
-  ("m3_is_diagonal", run1 (@rd_m3 Qc) (fun m => vb (m3_is_diagonal O AQ m)));
-  ("m4_is_diagonal", run1 (@rd_m4 Qc) (fun m => vb (m4_is_diagonal O AQ m)));
-  ("m2_is_symmetric", run1 (@rd_m2 Qc) (fun m => vb (m2_is_symmetric AQ m)));
-  ("m3_is_symmetric", run1 (@rd_m3 Qc) (fun m => vb (m3_is_symmetric AQ m)));
-  ("m4_is_symmetric", run1 (@rd_m4 Qc) (fun m => vb (m4_is_symmetric AQ m)));
-  ("m2_is_invertible", run1 (@rd_m2 Qc) (fun m => vb (m2_is_invertible O AQ m)));
-  ("m3_is_invertible", run1 (@rd_m3 Qc) (fun m => vb (m3_is_invertible O AQ m)));
-  ("m4_is_invertible", run1 (@rd_m4 Qc) (fun m => vb (m4_is_invertible O AQ m)));
-  ("v1_is_zero", run1 (@rd_v1 Qc) (fun v => vb (v1_is_zero O v))); ("v2_is_zero", run1 (@rd_v2 Qc) (fun v => vb (v2_is_zero O v)));
-  ("v3_is_zero", run1 (@rd_v3 Qc) (fun v => vb (v3_is_zero O v))); ("v4_is_zero", run1 (@rd_v4 Qc) (fun v => vb (v4_is_zero O v)));
-  ("quat_is_zero", run1 rq (fun q => vb (quat_is_zero O AQ q)));
-  ("rad_is_zero", run1 (@rd_s Qc) (fun a => vb (ang_is_zero O AQ a)));
-  ("v2_is_perpendicular", run2 (@rd_v2 Qc) (@rd_v2 Qc) (fun a b => vb (v2_is_perpendicular O AQ a b)));
-  ("v3_is_perpendicular", run2 (@rd_v3 Qc) (@rd_v3 Qc) (fun a b => vb (v3_is_perpendicular O AQ a b)));
-  ("v4_is_perpendicular", run2 (@rd_v4 Qc) (@rd_v4 Qc) (fun a b => vb (v4_is_perpendicular O AQ a b)))
+  ("m2_is_identity", grun1 (@rd_m2 F) (fun m => gb (m2_is_identity O AQ m)));
+  ("m3_is_identity", grun1 (@rd_m3 F) (fun m => gb (m3_is_identity O AQ m)));
+  ("m4_is_identity", grun1 (@rd_m4 F) (fun m => gb (m4_is_identity O AQ m)));
+  ("m2_is_zero", grun1 (@rd_m2 F) (fun m => gb (m2_is_zero O AQ m)));
+  ("m3_is_zero", grun1 (@rd_m3 F) (fun m => gb (m3_is_zero O AQ m)));
+  ("m4_is_zero", grun1 (@rd_m4 F) (fun m => gb (m4_is_zero O AQ m)));
+  ("m2_is_diagonal", grun1 (@rd_m2 F) (fun m => gb (m2_is_diagonal O AQ m)));
+  ("m3_is_diagonal", grun1 (@rd_m3 F) (fun m => gb (m3_is_diagonal O AQ m)));
+  ("m4_is_diagonal", grun1 (@rd_m4 F) (fun m => gb (m4_is_diagonal O AQ m)));
+  ("m2_is_symmetric", grun1 (@rd_m2 F) (fun m => gb (m2_is_symmetric AQ m)));
+  ("m3_is_symmetric", grun1 (@rd_m3 F) (fun m => gb (m3_is_symmetric AQ m)));
+  ("m4_is_symmetric", grun1 (@rd_m4 F) (fun m => gb (m4_is_symmetric AQ m)));
+  ("m2_is_invertible", grun1 (@rd_m2 F) (fun m => gb (m2_is_invertible O AQ m)));
+  ("m3_is_invertible", grun1 (@rd_m3 F) (fun m => gb (m3_is_invertible O AQ m)));
+  ("m4_is_invertible", grun1 (@rd_m4 F) (fun m => gb (m4_is_invertible O AQ m)));
+  ("v1_is_zero", grun1 (@rd_v1 F) (fun v => gb (v1_is_zero O v))); ("v2_is_zero", grun1 (@rd_v2 F) (fun v => gb (v2_is_zero O v)));
+  ("v3_is_zero", grun1 (@rd_v3 F) (fun v => gb (v3_is_zero O v))); ("v4_is_zero", grun1 (@rd_v4 F) (fun v => gb (v4_is_zero O v)));
+  ("quat_is_zero", grun1 rq (fun q => gb (quat_is_zero O AQ q)));
+  ("rad_is_zero", grun1 (@rd_s F) (fun a => gb (ang_is_zero O AQ a)));
+  ("v2_is_perpendicular", grun2 (@rd_v2 F) (@rd_v2 F) (fun a b => gb (v2_is_perpendicular O AQ a b)));
+  ("v3_is_perpendicular", grun2 (@rd_v3 F) (@rd_v3 F) (fun a b => gb (v3_is_perpendicular O AQ a b)));
+  ("v4_is_perpendicular", grun2 (@rd_v4 F) (@rd_v4 F) (fun a b => gb (v4_is_perpendicular O AQ a b)))
 ].
+End G.
+
+Definition qc_N (x : Qc) : N := Z.to_N (Qnum (this x)).
+Definition tab_c18 : list (string * (list Qc -> val)) := qtab (gtab_c18 OpsQ ApproxQ qc_nat qc_N).
 
 Definition run_c18 : runner := fun f o args =>
   match dispatch tab_c18 f with Some h => h args | None => VBad end.
